@@ -152,8 +152,12 @@ def _draw_grid(space, agent_portrayal):
             )
 
     invalid_tooltips = ["color", "size", "x", "y"]
-    # the encoding is derived from the first agent; a space without agents gives an empty chart
-    first_agent_data = all_agent_data[0] if all_agent_data else {}
+    # the encodings are derived from the keys of all agents, in first-seen order and with the
+    # first value seen for each key; a space without agents gives an empty chart
+    portrayed = {}
+    for agent_data in all_agent_data:
+        for key, value in agent_data.items():
+            portrayed.setdefault(key, value)
 
     x_y_type = "ordinal" if not isinstance(space, ContinuousSpace) else "nominal"
 
@@ -164,14 +168,14 @@ def _draw_grid(space, agent_portrayal):
         "y": alt.Y("y", axis=None, type=x_y_type),
         "tooltip": [
             alt.Tooltip(key, type=alt.utils.infer_vegalite_type_for_pandas([value]))
-            for key, value in first_agent_data.items()
+            for key, value in portrayed.items()
             if key not in invalid_tooltips
         ],
     }
-    has_color = "color" in first_agent_data
+    has_color = "color" in portrayed
     if has_color:
         encoding_dict["color"] = alt.Color("color", type="nominal")
-    has_size = "size" in first_agent_data
+    has_size = "size" in portrayed
     if has_size:
         encoding_dict["size"] = alt.Size("size", type="quantitative")
 
